@@ -7,7 +7,7 @@
 namespace gil = boost::gil;
 using c13::SeedView; using c13::Opts; using ioc::Flat; using ioc::Emit;
 
-struct PnmFmt
+struct PnmFmt : c13::DefaultDevices
 {
     using tag = gil::pnm_tag;
     static const char* name() { return "pnm"; }
@@ -34,7 +34,7 @@ struct PnmFmt
     }
 
     // scanline rows: P1/P2/P5 -> gray8, P3/P6 -> rgb8, P4 -> gray1 (bit-aligned)
-    template <class Reader> static int scan_row(Reader& r, gil::byte_t* p, std::vector<double>& out)
+    template <class Img, class Reader> static int scan_row(Reader& r, gil::byte_t* p, std::vector<double>& out)
     {
         long w = r._info._width;
         int t = r._info._type;
@@ -53,12 +53,12 @@ struct PnmFmt
     template <class Img> static void view_exact(Emit& e, ioc::Source const& src, int d, Flat const& full)
     { view_exact_impl<Img>(e, src, d, full, std::is_same<Img, gil::gray1_image_t>()); }
     template <class Img> static void view_exact_impl(Emit& e, ioc::Source const& src, int d, Flat const& full, std::false_type)
-    { c13::view_exact_interleaved<Img, tag>(e, src, d, full); }
+    { c13::view_exact_interleaved<PnmFmt, Img>(e, src, d, full); }
     // bit-aligned: a fresh image (rows bit-packed back to back, allocation exactly ceil(w*h/8) bytes, ASan red zones)
     template <class Img> static void view_exact_impl(Emit& e, ioc::Source const& src, int d, Flat const& full, std::true_type)
     {
         Img img(full.w, full.h);
-        std::string err = c13::guarded([&] { ioc::with_dev(d, src, [&](auto& dev) { gil::read_view(dev, gil::view(img), tag()); }); });
+        std::string err = c13::guarded([&] { with_dev(d, src, [&](auto& dev) { gil::read_view(dev, gil::view(img), tag()); }); });
         if (!err.empty()) e.fail("read_view-throws", err);
         else { std::string df = ioc::diff(full, ioc::flat(gil::const_view(img))); if (!df.empty()) e.fail("read_view!=full", df); }
     }
